@@ -215,3 +215,16 @@ Example C14_aggregate_after_filters_example :
   fagg_input (fun _ => None) (fun _ _ => false) path doc = [VNum (num_of_Z 1); VNum (num_of_Z 3)] /\
   fagg_outcome (fun _ => None) (fun _ _ => None) afun (fun _ _ => false) path [99; 110; 116]%N [] doc = Some (VNum (num_of_Z 2)).
 Proof. cbv zeta. do 2 (split; [vm_compute; reflexivity|]). vm_compute. reflexivity. Qed.
+
+(* … and its call log: g once with those values (not at all when there are none), then the filter functions on its result;
+   the filters call nothing *)
+Theorem C14_aggregate_calls_after_filters_from_text : forall cfg parse_float regex_ok ffun afun regex_match,
+  (forall f v w, small v -> ffun f v = Some w -> small w) ->
+  (forall f l w, Forall small l -> afun f l = Some w -> small w) ->
+  forall x r g fs doc st, forallb fstep_ok (x :: r) = true -> forallb (fstep_okp parse_float regex_ok) (x :: r) = true ->
+  forallb fname_ok (g :: fs) = true -> agg_known cfg g = true -> forallb (fun_known cfg) fs = true -> small doc -> ok st ->
+  exists t, parse_with cfg parse_float regex_ok jsonpath_grammar (fchain_fun_path (x :: r) (g :: fs)) = ParseOk t /\
+            calls (snd (eval_run ffun afun regex_match t doc st)) =
+            calls st ++ fagg_calls parse_float ffun afun regex_match (x :: r) g fs doc.
+Proof. exact fchain_agg_calls. Qed.
+Print Assumptions C14_aggregate_calls_after_filters_from_text.
